@@ -81,6 +81,22 @@ impl XsdDateTime {
     }
 }
 
+impl XsdDateTime {
+    /// A key whose (total) order extends the partial order of dateTimes
+    /// ([Section 3.2.7.4 of XML Schema Part 2](https://www.w3.org/TR/xmlschema-2/#dt-dateTime)):
+    /// a dateTime without timezone is ranked as if it was in UTC,
+    /// and after the timezoned dateTime denoting that same instant.
+    ///
+    /// NB: when a timezoned dateTime and one without timezone are comparable, they are more than 14 hours apart,
+    /// so ranking the latter as UTC never contradicts the partial order.
+    pub(crate) fn total_order_key(&self) -> (NaiveDateTime, bool) {
+        match self {
+            XsdDateTime::Naive(d) => (*d, true),
+            XsdDateTime::Timezoned(d) => (d.naive_utc(), false),
+        }
+    }
+}
+
 impl FromStr for XsdDateTime {
     type Err = &'static str;
 
